@@ -57,8 +57,16 @@ Definition run_transport (i : sx) : sx :=
         let r := send_iter sendmsg_drops_empty_views (path =? 5) iov F F ri chunks None s [] in
         L [A (out_code (sr_out r)); digest (sk_wire (sr_sock r)); L []; A 0]
       else if path =? 7 then
-        let r := tls_flush F chunks s in
-        L [A (out_code (sr_out r)); digest (sk_wire (sr_sock r)); L []; A 0]
+        match script with
+        | [] =>
+            (* no scripted fault (a real SSLObject): the backlog loop returns and the wire is concat chunks; the digest is
+               computed chunk by chunk so that payloads of several hundred KB do not build one huge list
+               (Proofs/C04_payload.v tls_flush_fast_path: equal to the digest of the model's wire) *)
+            L [A 0; digest_chunks chunks; L []; A 0]
+        | _ =>
+            let r := tls_flush F chunks s in
+            L [A (out_code (sr_out r)); digest (sk_wire (sr_sock r)); L []; A 0]
+        end
       else bad_input
   | _ => bad_input
   end.
